@@ -307,7 +307,7 @@ fn v5_next_pkid_contract() {
 // ------------------------------------------------------------------------------------------
 // PUBACK
 // ------------------------------------------------------------------------------------------
-// @steps name=v5_puback props=C02,C07,C10 fn=v5::MqttState::handle_incoming_puback call=puback_step
+// @steps name=v5_puback props=C02,C07,C10 fn=v5::MqttState::handle_incoming_puback call=puback_step ns=quick:1;thorough:1,2,3
 fn puback_step(n: usize) {
     let mut st = any_state(n, 0);
     let g = ghost(&st);
@@ -663,17 +663,24 @@ fn v5_incoming_pubrel() {
     let mut st = any_state(1, ICAP);
     let g = ghost(&st);
     let pkid: u16 = kani::any();
+    let success: bool = kani::any();
     let was_set = (pkid as usize) < ICAP && st.incoming_pub.contains(pkid as usize);
     let ones = st.incoming_pub.count_ones(..);
-    let r = st.handle_incoming_pubrel(&PubRel { pkid, reason: PubRelReason::Success, properties: None });
+    let r = st.handle_incoming_pubrel(&PubRel { pkid, reason: if success { PubRelReason::Success } else { PubRelReason::PacketIdentifierNotFound }, properties: None });
     let h = ghost(&st);
     match &r {
         Ok(out) => {
             assert!(was_set, "C10 pubrel.ok_only_for_known_id");
-            assert!(matches!(out, Some(Packet::PubComp(a)) if a.pkid == pkid), "C10 pubrel.pubcomp_same_id");
             assert!(!st.incoming_pub.contains(pkid as usize) && st.incoming_pub.count_ones(..) == ones - 1, "C10 pubrel.id_forgotten_only_that");
-            assert!(h.events == g.events + 1, "C10 pubrel.one_event");
-            assert!(matches!(st.events.back(), Some(Event::Outgoing(Outgoing::PubComp(x))) if *x == pkid), "C10 pubrel.event_kind");
+            if success {
+                assert!(matches!(out, Some(Packet::PubComp(a)) if a.pkid == pkid), "C10 pubrel.pubcomp_same_id");
+                assert!(h.events == g.events + 1, "C10 pubrel.one_event");
+                assert!(matches!(st.events.back(), Some(Event::Outgoing(Outgoing::PubComp(x))) if *x == pkid), "C10 pubrel.event_kind");
+            } else {
+                // a release carrying a failure reason is not answered: nothing is written, so nothing may be announced
+                assert!(out.is_none(), "C10 pubrel.failure_reason_not_answered");
+                assert!(h.events == g.events, "C10 pubrel.no_event_without_write");
+            }
         }
         Err(e) => {
             assert!(!was_set, "C10 pubrel.err_only_if_unknown");
@@ -682,7 +689,8 @@ fn v5_incoming_pubrel() {
         }
     }
     assert!(frame(&g, &h, NONE, NONE) && h.inflight == g.inflight && h.collision == g.collision, "C10 pubrel.outgoing_bookkeeping_untouched");
-    kani::cover!(r.is_ok(), "known release");
+    kani::cover!(r.is_ok() && success, "known release");
+    kani::cover!(r.is_ok() && !success, "release with failure reason");
     kani::cover!(r.is_err() && pkid as usize >= ICAP, "release above table");
     core::mem::forget(r);
     core::mem::forget(st);
